@@ -37,7 +37,7 @@ lane() {
     tierw=$(python3 -c "import json;m=json.load(open('$d/meta.json'));print((m.get('detected_by') or {}).get('tier') or 'quick')")
     if [ "$tierw" = thread-world ]; then
       # detected by the thorough tier's thread world (real rayon under Miri's seeded scheduler)
-      out=$(cd "$L/verif" && VERIF_ROOT="$L/verif" ./check thread-world "$id" 4 16 2>&1); code=$?
+      out=$(cd "$L/verif" && VERIF_ROOT="$L/verif" ./check thread-world "$id" 4 32 2>&1); code=$?
     else
       out=$(cd "$L/verif" && VERIF_ROOT="$L/verif" ./check "$id" quick 2>&1); code=$?
     fi
